@@ -4,7 +4,7 @@ The escaping itself is done by twisted.web / docutils / expat (third party; DESI
 property and nothing symbolic can be said.  What is decided here, as bounded-exhaustive exploration (class E): a hostile
 string from a menu (element, attribute/event-handler, entity look-alike, CDATA and comment delimiters, quotes, control
 characters) is planted in one of the places where source text reaches a page (docstrings and fields in each docformat,
-constant value, parameter default, string annotation, decorator argument, base-class subscript, attribute docstring), the
+constant value, parameter default, string annotation, decorator argument, base-class subscript, attribute docstring, hyperlink target, image alternative text), the
 project is rendered by the real writer, and
   (1) every written page parses as XML (after characters illegal in XML are set aside, as the statement allows);
   (2) the element/attribute SKELETON of every page is identical to the skeleton obtained with the same string with its HTML-significant
@@ -21,7 +21,7 @@ from lib.hx import harness, pick, pickb, done, tier, PART, note, known, sample
 PROPERTY = "C10"
 LEVEL = "exploration"
 ASSUMPTIONS = [
-    "narrow claim: one hostile string from a menu of 14, planted in one of 12 places of a fixed two-module project, 5 docformats; nothing is claimed for other inputs",
+    "narrow claim: one hostile string from a menu of 16, planted in one of 14 places of a fixed two-module project, 5 docformats; nothing is claimed for other inputs",
     "reST raw / include directives are excluded by the statement and not used",
     "well-formedness is judged by expat (xml.etree) after removing characters that are illegal in XML 1.0",
 ]
@@ -33,10 +33,11 @@ from lib import crawl
 HOSTILE = [
     "<script>alert(1)</script>", "\"><img src=x onerror=alert(1)>", "'><svg onload=alert(1)>", "&amp;&lt;b&gt;&#60;i&#62;", "]]><b>x</b>", "<!-- c --><b>",
     "--></p><p>", "<![CDATA[<x>]]>", "</code></div><h1>x</h1>", "&nosuchentity;", "<a href=javascript:alert(1)>x</a>", "\x1b[31m<b>", "a\x0cb<i>", "<b\tonclick=x>",
+    "x\" onmouseover=\"alert(1)", "x' onfocus='alert(1)",
 ]
 NH = len(HOSTILE)
 FORMATS = ["epytext", "restructuredtext", "google", "numpy", "plaintext"]
-PLACES = ["moddoc", "funcdoc", "classdoc", "attrdoc", "field_param", "field_return", "field_raises", "const", "default", "annotation", "decorator", "base"]
+PLACES = ["moddoc", "funcdoc", "classdoc", "attrdoc", "field_param", "field_return", "field_raises", "const", "default", "annotation", "decorator", "base", "attr_href", "attr_alt"]
 NP = len(PLACES)
 _ILLEGAL = re.compile("[\x00-\x08\x0b\x0c\x0e-\x1f￾￿]")
 
@@ -68,6 +69,11 @@ def gen(fmt, place, s):
     for k in ("param", "return", "raises"):
         if place == "field_" + k:
             fdoc += "\n\n" + field(fmt, k, s)
+    # places where the docformat's own translator writes source text into an ATTRIBUTE value (href, alt)
+    if place == "attr_href":
+        fdoc += "\n\n" + ("See U{the page<http://example.com/?q=%s>} now." % s if fmt == "epytext" else "See `the page <http://example.com/?q=%s>`_ now." % s if fmt != "plaintext" else s)
+    if place == "attr_alt":
+        fdoc += "\n\n" + ("See U{%s} now." % s if fmt == "epytext" else ".. image:: logo.png\n   :alt: %s\n\nAfter." % s if fmt != "plaintext" else s)
     default = lit(s) if place == "default" else "1"
     annotation = lit(s) if place == "annotation" else "int"
     deco = "@deco(%s)\n" % lit(s) if place == "decorator" else "@deco(1)\n"
@@ -122,6 +128,8 @@ def check_markup(fmt, place, hi):
     # gives meaning to (colons, dashes, brackets, whitespace) is the same in both renderings
     benign = re.sub("[<>&\"']", "x", s)
     has_control = _ILLEGAL.search(s) is not None
+    if place in ("attr_href", "attr_alt") and re.search("[<>]", s):
+        has_control = True           # < and > delimit the target in the docformats' own link syntax, so the twin is a different document: count-based oracle
     if place == "annotation":
         try:
             import ast as _ast
@@ -164,7 +172,9 @@ def check_markup(fmt, place, hi):
             return False
         if not shown:
             alltext = "".join(root.itertext())
-            if "".join(plain.split()) in "".join(alltext.split()):
+            squeezed = "".join(alltext.split())
+            # a constant may be displayed as the equivalent literal with its quote escaped (C15 decides that the literal denotes the same string)
+            if any("".join(v.split()) in squeezed for v in (plain, plain.replace("'", "\\'"), plain.replace('"', '\\"'))):
                 shown = True
     if place in ("const", "default", "funcdoc", "moddoc", "classdoc", "attrdoc") and not shown and fmt == "plaintext" and not re.search(r"[\x00-\x1f]", s):
         note(why="the string is not present as text on any page", **ctx)
@@ -180,7 +190,7 @@ UNBLOCK = ["open", "os.mkdir", "os.symlink", "os.remove", "os.rmdir", "shutil.rm
     parts=lambda: [[p, f] for p in range(NP) for f in range(5)], timeout=(300, 1800), cls="E", tracing="concrete-after-choice", twin="first", unblock=UNBLOCK,
     code=["pydoctor.stanutils.flatten/html2stan (_RE_CONTROL)", "pydoctor.node2stan.HTMLTranslator", "pydoctor.templatewriter.writer.flattenToFile", "pydoctor.astbuilder._ValueFormatter", "pydoctor.epydoc.markup._pyval_repr",
           "pydoctor.templatewriter.pages.format_signature/format_decorators/format_class_signature", "pydoctor.epydoc2stan.FieldHandler", "twisted.web.template flattening (third party, exercised not modelled)"],
-    bounds={"quick": "14 hostile strings x 12 places x 5 docformats (840 renders + harmless twins of equal length)", "thorough": "same"},
+    bounds={"quick": "16 hostile strings (element, attribute and event-handler injection with either quote, entity look-alikes, CDATA/comment delimiters, control characters) x 14 places (incl. hyperlink target and image alt text, which the translators write into attribute values) x 5 docformats (1 120 renders + harmless twins of equal length)", "thorough": "same"},
     outside="strings outside the menu; several hostile strings at once; reST raw/include directives; names (identifiers cannot hold markup)",
 )
 def h_markup(hi: int) -> bool:
